@@ -144,6 +144,36 @@ def corr_intr(n_quick, n_thorough):
     return run
 
 
+def memkinds_check(ctx, chk, out, cov, vectors):
+    """real vs real on the given vectors: harness memory vs z80.DumbMemory vs z80.MapMemory vs a DumbMemory replaced by a copy after every Step"""
+    import os
+    mk = [l for l in vectors.splitlines() if l.strip()]
+    rc, mo = chk.sh([os.path.join(chk.WORK, 'harness'), 'memkinds'], inp='\n'.join(mk) + '\n', timeout=3600)
+    ml = [l for l in mo.splitlines() if l and not l.startswith('WARNING')]
+    byid = {l.split(' ', 1)[0]: l for l in mk}
+    n_mk = 0
+    for l in ml:
+        vid, _, rest = l.partition(' ')
+        if rest == 'same':
+            n_mk += 1
+        else:
+            out.append({'stream': 'memkinds', 'id': vid, 'vector': byid.get(vid, ''), 'real': rest[:1500], 'other': 'the outcome must not depend on what kind of object the memory is, nor on the memory object being replaced by another one holding the same bytes'})
+    if len(ml) != len(mk):
+        out.append({'stream': 'memkinds', 'id': 'length', 'vector': mo[-1500:], 'real': f'{len(ml)} answers for {len(mk)} vectors', 'other': None})
+    cov['evaluations'] = cov.get('evaluations', 0) + 3 * n_mk
+    cov.setdefault('correspondence', {})['memory_kind_vectors'] = n_mk
+
+
+def corr_c04(ctx, chk, broken):
+    """C04: the Jump / CallRet / Stack slots, plus histories in which a mode-0 request supplies RST / CALL / JP / PUSH a second time (the
+    push and the operands must use the memory the CPU has NOW): real vs model vs reference, and real vs real across memory objects"""
+    out, cov = corr_slots(40, 400, family=['Jump', 'CallRet', 'Stack'])(ctx, chk, broken)
+    vec = chk.gen_vectors('im0twice', ['-seed', str(ctx.seed + 2), '-n', '300' if ctx.tier == 'thorough' else '40'])
+    memkinds_check(ctx, chk, out, cov, vec)
+    cov['rule'] = cov.get('rule', '') + ' | plus two mode-0 acceptances in a row (RST 38h, EI, then RST / CALL nn / JP with its operand in memory / PUSH supplied) on the real code with four kinds of memory object incl. one replaced by a copy after every Step'
+    return out, cov
+
+
 def cbraise_check(ctx, chk, out, cov, per):
     """real vs real: a request raised from inside a Memory / IO callback during Step j = the same request raised at the boundary after
     Step j (every opcode slot, bus accesses 1..4 of the Step, NMI and a maskable request)"""
@@ -833,7 +863,7 @@ PROPS = {
         'targets': ['Z80.Props.C04'],
         'count': HELPERS + fam('Jump', 'CallRet', 'Stack') + ['Z80/Proofs/Families/Jump.lean', 'Z80/Proofs/Families/CallRet.lean',
                                                              'Z80/Proofs/Families/Stack.lean', 'Z80/Props/C04.lean'],
-        'correspond': corr_slots(40, 400, family=['Jump', 'CallRet', 'Stack']),
+        'correspond': corr_c04,
         'assumptions': ['user memory is a byte store (needed for the CALL;RET and PUSH;POP round trips)'],
         'explanation': 'slot obligations of Jump/CallRet/Stack; taken iff condition for all F; push layout; CALL;RET and PUSH;POP round trips for every state incl. SP wrap',
     },
